@@ -358,6 +358,25 @@ def finish(chk, ob, br, trusted_base, assumptions, rule, checker_cmd):
             except Exception as e:
                 now_line = "OK <unprintable result: %s %s>" % (type(e).__name__, e)
             chk.evals += 1
+            # ... and so does every copy of it: copy.copy, copy.deepcopy, a pickle round trip, dataclasses.replace (results are plain values)
+            if stale < 3 and now_line == line:
+                import copy as _cp, pickle as _pk, dataclasses as _dc
+                for how, mk in (("copy.copy", _cp.copy), ("copy.deepcopy", _cp.deepcopy), ("pickle round trip", lambda o: _pk.loads(_pk.dumps(o))),
+                                ("dataclasses.replace", lambda o: _dc.replace(o) if _dc.is_dataclass(o) else o)):
+                    try:
+                        clone = mk(r)
+                    except Exception:
+                        continue          # (results holding memoryviews cannot be pickled: no verdict)
+                    try:
+                        cl_line = "OK " + pr(clone)
+                    except Exception as e:
+                        cl_line = "OK <unprintable result: %s %s>" % (type(e).__name__, e)
+                    chk.evals += 1
+                    if cl_line != line:
+                        stale += 1
+                        chk.violation(f"a {how} of a returned {type(r).__name__} reads differently from the original", f"result-copy {how} {type(r).__name__}",
+                                      {"result_type": type(r).__name__, "how": how, "original": line[:600], "copy": cl_line[:600]})
+                        break
             if now_line != line and stale < 3:
                 stale += 1
                 chk.violation("a result returned earlier reads differently after later calls (results share state with later calls or with the caller's buffers)",
